@@ -195,7 +195,14 @@ Fixpoint monitor (mon : Z) (opt : copt) (nparts : Z) (m : mstate) (ops : list ho
                              m_last := match m_last m with Some (k, v, true) => Some (k, v, true) | _ => None end;
                              m_pswept := m_pswept m; m_ins := m_ins m; m_dirty := m_dirty m |} t
       | HClear =>
-          monitor mon opt nparts {| m_ideal := []; m_touched := m_touched m; m_prev := m_prev m; m_born := [];
+          (* C13: Clear leaves an empty cache of unchanged capacity (block right after it vs the last block before) *)
+          (match mon, m_prev m, t with
+           | 13%Z, Some before, HObs after :: _ =>
+               Z.eqb (ocap after) (ocap before) && Z.eqb (olen after) 0
+               && forallb (Z.eqb 0) (ogets after) && Nat.eqb (length (okeys after)) 0 && Nat.eqb (length (ovalues after)) 0
+           | _, _, _ => true
+           end)
+          && monitor mon opt nparts {| m_ideal := []; m_touched := m_touched m; m_prev := m_prev m; m_born := [];
                              m_clock := S (m_clock m); m_nins := 0; m_swept := true; m_noresize := m_noresize m; m_last := None;
                              m_pswept := m_pswept m; m_ins := m_ins m; m_dirty := true |} t
       | HResize n root order =>
